@@ -42,7 +42,14 @@ def renumbering(year, fname):
         t0 = time.time()
         paths = linevc.explore_line(year, fld)
         if any(p.outcome[0] == 'unsupported' for p in paths):
-            obs.append(Ob(id=f'C16/{year}/renumber/{name}', status=oblig.UNDECIDED, function=fid, solver_output='line outside the subset'))
+            why = next(p.outcome[1] for p in paths if p.outcome[0] == 'unsupported')
+            # outside the subset: no symmetry argument; a native pair of numberings can still refute it (never confirm it)
+            rep = native_renumber(year, name)
+            if rep.get('reproduced'):
+                obs.append(Ob(id=f'C16/{year}/renumber/{name}', status=oblig.REFUTED, backend='native', function=fid, clause=f'{name} changes when two copies of a numbered form swap their numbers',
+                              witness={'two_numberings': rep.get('two_numberings')}, replay=rep, solver_output=f'line outside the subset ({why}); refuted by a native pair of numberings'))
+            else:
+                obs.append(Ob(id=f'C16/{year}/renumber/{name}', status=oblig.UNDECIDED, function=fid, solver_output=f'line outside the subset: {why}'))
             continue
         concrete, prefix = [], []
         reads_numbered = False
